@@ -27,10 +27,15 @@ AllGrids == << [p |-> <<16, 32, 48, 64, 80, 96, 112, 128, 144>>,        xw |-> <
                [p |-> <<12, 36, 52, 72, 88, 112, 148>>,                 xw |-> <<24, 16, 16, 16, 16, 24, 36>>] >>
 MCGrids == SubSeq(AllGrids, 1, NGrids)
 
-MSpec == Init /\ hist = <<>> /\ [][Next /\ UNCHANGED hist]_<<vars, hist>>
+\* a design mutant is followed until it is refuted, not further (keeps the number of reported counterexamples small)
+Alive == SoundV(V) \/ (OpsArePure /\ ResultEqualsFresh)
+MSpec == Init /\ hist = <<>> /\ [][Alive /\ Next /\ UNCHANGED hist]_<<vars, hist>>
 HInit == Init /\ hist = <<>>
-HNext == \E op \in Ops : Do(op) /\ hist' = Append(hist, op)
+HNext == Len(hist) < Depth /\ \E op \in Ops : Do(op) /\ hist' = Append(hist, op)
 HSpec == HInit /\ [][HNext]_<<vars, hist>>
+\* simulation: one random operation per step (TLC would otherwise evaluate all of them to pick one)
+SNext == Len(hist) < Depth /\ LET op == RandomElement(Ops) IN Do(op) /\ hist' = Append(hist, op)
+SSpec == HInit /\ [][SNext]_<<vars, hist>>
 Bound == Len(hist) <= Depth
 
 \* which design mutants a history exposes on a binner of a kind: some call returns something else than a
@@ -39,7 +44,8 @@ RECURSIVE Exposed(_, _, _, _)
 Exposed(v, s, ops, i) ==
     IF i > Len(ops) THEN FALSE
     ELSE Res(v, s, ops[i]) # Fresh(v, ops[i]) \/ Exposed(v, Step(v, s, ops[i]), ops, i + 1)
-Mutants(kind) == {v \in [kind : {kind}, key : Keys, conv : Convs] : v \in Variants /\ ~SoundV(v)}
+Mutants(kind) == {v \in [kind : {kind}, key : {"none", "length", "ends"}, conv : {"copy", "inplace"}] :
+                     /\ ~SoundV(v) /\ (v.conv = "inplace" => v.key = "none") /\ (kind # "flux" => v.key = "none")}
 MutName(v) == IF v.conv = "inplace" THEN "inplace" ELSE v.key
 KillsOf(kind, ops) == {MutName(v) : v \in {m \in Mutants(kind) : Exposed(m, FreshBs, ops, 1)}}
 
